@@ -84,13 +84,24 @@ impl IntoGameNode for State {
     }
 }
 
+// NOTE every move of a game adds three levels of json nesting, so serde_json's default limit of
+// 128 levels rejects any game deeper than about forty moves
+fn from_deserializer<'de, R: serde_json::de::Read<'de>>(
+    mut de: serde_json::Deserializer<R>,
+) -> Result<State, Error> {
+    de.disable_recursion_limit();
+    let definition = State::deserialize(&mut de)?;
+    de.end()?;
+    Ok(definition)
+}
+
 pub fn from_str(raw: &str) -> Result<(Game<String, String>, f64), Error> {
-    let definition: State = serde_json::from_str(raw)?;
+    let definition = from_deserializer(serde_json::Deserializer::from_str(raw))?;
     Ok(from_state(definition))
 }
 
 pub fn from_reader(reader: &mut impl Read) -> (Game<String, String>, f64) {
-    let definition = serde_json::from_reader(reader).expect(
+    let definition = from_deserializer(serde_json::Deserializer::from_reader(reader)).expect(
         "couldn't parse json game definition : https://github.com/erikbrinkman/cfr#json-error",
     );
     from_state(definition)
